@@ -2,6 +2,7 @@
   C12 — Node groups are isolated from each other.
 -/
 import EscProofs.P.Assemble
+import EscProofs.P.MainWiring
 import EscProofs.Lemmas.Run
 import EscProofs.Lemmas.Classify
 import EscProofs.P.C02
